@@ -298,6 +298,8 @@ def enum_tls(tier):
                 if 0 <= k <= full:
                     yield {"backend": backend, "tls": vn, "k": k, "slow": False}
             yield {"backend": backend, "tls": vn, "k": full, "slow": True}
+            # the complete request as two TLS records that arrive in one TCP read, and nothing after it
+            yield {"backend": backend, "tls": vn, "k": 10**9, "slow": False, "two_records": True}
     # a client certificate that the TLS library accepts and the X.509 parser rejects (PyOpenSSL path asks for certificates)
     for vn in VERS:
         for ccert in ("hostile-v4", "hostile-bool"):
@@ -310,6 +312,8 @@ def run_tls(case: dict):
     backend, ver = case["backend"], VERS[case["tls"]]
     ccert = case.get("ccert")
     hs_len, full = _session_lengths(backend, ver) if not ccert else (0, 10**9)
+    if case.get("two_records"):
+        full = 0  # everything the client produces is delivered: the request is complete
     k = case["k"]
 
     async def scenario(loop):
@@ -334,7 +338,12 @@ def run_tls(case: dict):
         for _ in range(30):
             conn.client.step()
             if conn.client.handshaken and not queued and case.get("send_request", True):
-                conn.client.to_send += REQS[0]
+                if case.get("two_records"):
+                    cut = len(REQS[0]) - 2
+                    conn.client.obj.write(REQS[0][:cut])
+                    conn.client.obj.write(REQS[0][cut:])   # second record: just the CRLF
+                else:
+                    conn.client.to_send += REQS[0]
                 queued = True
                 conn.client.step()
             out = conn.client.take()
